@@ -39,6 +39,40 @@ def isF64 (q : Rat) : Bool :=
 def f64ExactSeg (a b : Pt) : Bool :=
   exactSeg a b && isF64 (a.x - b.x) && isF64 (a.y - b.y) && isF64 ((sqrtInterval (sqLen a b)).1)
 
+/-! ### regime G: when is the f64 evaluation provably exact?
+
+Every intermediate value of the f64 evaluation is followed here in exact arithmetic; if each one is
+a binary64 value, every IEEE operation returned it unrounded (hypot: listed assumption), all
+comparisons went the same way, and the implementation's result must equal the model's bit for bit. -/
+
+/-- `start + diff * distance / total_distance` without rounding -/
+def pdbExact (a b : Pt) (rem : Rat) : Bool :=
+  let l := (sqrtInterval (sqLen a b)).1
+  let dx := b.x - a.x
+  let dy := b.y - a.y
+  f64ExactSeg a b && l != 0 && isF64 (dx * rem) && isF64 (dy * rem) && isF64 (dx * rem / l) && isF64 (dy * rem / l) &&
+    isF64 (a.x + dx * rem / l) && isF64 (a.y + dy * rem / l)
+
+/-- `start + diff * ratio` without rounding -/
+def lerpExact (a b : Pt) (t : Rat) : Bool :=
+  let dx := b.x - a.x
+  let dy := b.y - a.y
+  isF64 dx && isF64 dy && isF64 (dx * t) && isF64 (dy * t) && isF64 (a.x + dx * t) && isF64 (a.y + dy * t)
+
+/-- the walk of `point_at_distance_from_{start,end}` without rounding -/
+def walkExact : List (Pt × Pt) → Rat → Bool
+  | [], _ => true
+  | (a, b) :: rest, d =>
+    let l := (sqrtInterval (sqLen a b)).1
+    f64ExactSeg a b && (if l < d then isF64 (d - l) && walkExact rest (d - l) else pdbExact a b d)
+
+/-- `Length for LineString` without rounding (every partial sum a binary64 value) -/
+def lenExact : List (Pt × Pt) → Rat → Bool
+  | [], _ => true
+  | (a, b) :: rest, acc =>
+    let l := (sqrtInterval (sqLen a b)).1
+    f64ExactSeg a b && isF64 (acc + l) && lenExact rest (acc + l)
+
 def sqrtUp (q : Rat) : Rat := (sqrtInterval q).2
 
 /-! ### parsing of implementation outputs -/
@@ -228,9 +262,26 @@ def handleInterp (inp out : List String) : String :=
       | .some a, .some b => locAmbig || rabs (a - b) ≤ tolL
       | .na, .na => true
       | _, _ => false
-    let lenSame := rabs (o.len - L) ≤ K * uRound * L
-    let same := lenSame && nearO tol mrs o.rs && nearO tol mre o.re && nearO tol mds o.ds &&
-      nearO tol mde o.de && nearO tol mdrs o.drs && nearO tol mdre o.dre && nearO tol mli o.li && locSame
+    -- regime G: outputs whose f64 evaluation is provably exact must agree bit for bit
+    let lenEx := lenExact (segs cs) 0
+    let distEx (ss : List (Pt × Pt)) (x : Rat) : Bool := x ≤ 0 || walkExact ss x
+    let exDist (fromEnd : Bool) (x : Rat) : Bool :=
+      match g with
+      | .line a b =>
+        f64ExactSeg a b && (x ≤ 0 || x ≥ lenD a b || (if fromEnd then pdbExact b a x else pdbExact a b x))
+      | _ => distEx (if fromEnd then revSegs cs else segs cs) x
+    let (exRs, exRe) : Bool × Bool :=
+      match g with
+      | .line a b => (r ≤ 0 || r ≥ 1 || lerpExact a b r, q ≤ 0 || q ≥ 1 || lerpExact b a q)
+      | _ => (lenEx && isF64 (r * L) && exDist false (r * L), lenEx && isF64 (q * L) && exDist true (q * L))
+    let exDs := exDist false d
+    let exDe := exDist true d
+    let exDrs := exDist false o.rl
+    let exDre := exDist true o.ql
+    let tolIf (ex : Bool) : Rat := if ex then 0 else tol
+    let lenSame := if lenEx then o.len == L else rabs (o.len - L) ≤ K * uRound * L
+    let same := lenSame && nearO (tolIf exRs) mrs o.rs && nearO (tolIf exRe) mre o.re && nearO (tolIf exDs) mds o.ds &&
+      nearO (tolIf exDe) mde o.de && nearO (tolIf exDrs) mdrs o.drs && nearO (tolIf exDre) mdre o.dre && nearO tol mli o.li && locSame
     -- property clauses on the implementation's outputs
     let degenerate := L = 0
     let leadZero := match segs cs with | (a, b) :: _ => a == b | [] => true
@@ -283,6 +334,7 @@ def handleInterp (inp out : List String) : String :=
       | _ => false
     let cls := "type=" ++ (if isLine then "LN" else "LS") ++ " n=" ++ toString cs.length ++ " " ++ rcls ++ " " ++ dcls ++
       (if exact then " exact-len" else " approx-len") ++
+      (if exRs && exRe && exDs && exDe then " bit-exact" else if exRs || exRe || exDs || exDe then " part-bit-exact" else " rounded") ++
       (if (segs cs).any (fun s => s.1 == s.2) then " zero-seg" else "") ++
       (if atVertex then " at-vertex" else "") ++
       (if multi && !degenerate && cs != [] then " multi-preimage" else "") ++
@@ -403,8 +455,14 @@ def handleDensify (inp out : List String) : String :=
   | some og, some mg =>
     let ors := outRings og
     let mrs := outRings mg
+    -- regime G: `frac = 1/n`, `ratio = frac·k`, `start + diff·ratio` all unrounded ⇒ bit-exact points
+    let densExact := allSegs.all (fun s =>
+      let n := numSegments lenD s.1 s.2 mx
+      n ≤ 1 || (isF64 (1 / (n : Rat)) &&
+        (List.range' 1 (n - 1)).all (fun k => lerpExact s.1 s.2 ((k : Rat) / (n : Rat)))))
+    let tolM : Rat := if densExact then 0 else tol
     let same := shapeOf og == shapeOf mg && ors.length == mrs.length &&
-      (List.zip mrs ors).all (fun (m, o) => m.length == o.length && (List.zip m o).all (fun (p, q) => near tol p q))
+      (List.zip mrs ors).all (fun (m, o) => m.length == o.length && (List.zip m o).all (fun (p, q) => near tolM p q))
     let prop :=
       if shapeOf og != shapeOf mg || ors.length != rings.length then "FAIL:densify-shape"
       else
@@ -412,7 +470,7 @@ def handleDensify (inp out : List String) : String :=
     let prop := if prop == "" then "PASS" else prop
     let exactMult := allSegs.any (fun s => let qv := lenD s.1 s.2 / mx; qv.den == 1 && qv > 0)
     let inserted := pieces - (allSegs.filter (fun s => s.1 != s.2)).length
-    let cls := cls0 ++ (if exactMult then " exact-multiple" else "") ++
+    let cls := cls0 ++ (if densExact then " bit-exact" else " rounded") ++ (if exactMult then " exact-multiple" else "") ++
       (if allSegs.any (fun s => s.1 == s.2) then " zero-seg" else "") ++
       (if mx > maxSeg then " max>longest" else "") ++
       (if inserted == 0 then " none-inserted" else "") ++
